@@ -179,8 +179,19 @@ func runOptions(o opts, out *Output) {
 		pr := newProducerRun(options...)
 		cons := arrow_record.NewConsumer() // default consumer
 		leanBase := 0
+		interleaved := c%6 == 5
+		if interleaved {
+			nb = 7
+		}
 		for b := 0; b < nb; b++ {
 			n := 1 + r.Intn(6)
+			// a sixth of the histories alternate between the three signals on one producer (the resource / scope attribute
+			// sub-streams are shared between signals and see their schemas come and go)
+			sig, signal := sig, signal
+			if interleaved {
+				sig = []int{0, 1, 0, 2, 1, 0, 2, 1}[(b+c)%8]
+				signal = []string{"traces", "logs", "metrics"}[sig]
+			}
 			// a quarter of the histories open with an all-zero batch (typed zeros everywhere): the optional columns are still
 			// absent, what is decoded must not depend on when they appear
 			g.Zero = c%4 == 3 && b == 0
